@@ -406,6 +406,22 @@ def run(ctx):
     consts_crosscheck(ctx, (STATE["bs"], STATE["be"]))
     lines, kinds = gen(ctx)
     ctx.correspond(exe, lines, kinds, label="amp-armor", prop=prop, key_of=key_of)
+    # bounded buffering / no hang on an endless document (implementation monitors only): a well-formed document
+    # whose first pre element is complete must yield its first decoded byte after about one tokenizer buffer of
+    # input, whatever follows; an endless run of markup outside pre must not be swallowed before anything is returned
+    good = bytes.fromhex(vlib.run_model([AREA + " enc x414243444546"])[0])
+    first_pre_end = good.find(b"</pre>") + 6
+    lazy = []
+    for fill in (0, 1):
+        lazy.append(("lazy %d 0 %s" % (fill, doc_tokens(good[:first_pre_end])), "first=data consumed=small"))
+        lazy.append(("lazy %d 0 %s" % (fill, doc_tokens(STATE["bs"] + b"<pre>\n0QUJD\n</pre>")), "first=data consumed=small"))
+    llines = [AREA + " " + l for l, _ in lazy]
+    rc, out, err = vlib.run_impl(exe, llines, timeout=300)
+    for (l, want), line, o in zip(lazy, llines, out + ["!died"] * (len(llines) - len(out))):
+        ctx.count(line[:300], kind="endless-document")
+        if o != want:
+            ctx.violation("unbounded-buffering", "decoder fed an endless document: expected '%s', got '%s' (input consumed before the first output)" % (want, o),
+                          dict(label="amp-armor-lazy", case=line[:3000], impl=o))
 
 
 def replay(ctx, doc):
